@@ -185,6 +185,7 @@ pub fn sweep_day(
         collect_samples: false,
         lean: true,
         run: u64::MAX,
+            process_offset: crate::clock::process_offset(),
     };
     let mut log = Fnv::new();
     let offsets = [0i32, 3600, -18_000, 19_800, 45_900, -43_200];
